@@ -348,10 +348,14 @@ pub fn run_case(ctx: &Ctx, env: &Env, cs: u64, side: &mut Option<std::fs::File>)
 pub fn run(ctx: &Ctx) {
     crate::env::install_fp_hook();
     crate::env::track_reads(true);
-    // an absurd allocation must fail fast instead of being lazily granted
-    unsafe {
-        let lim = libc::rlimit { rlim_cur: 8 << 30, rlim_max: 8 << 30 };
-        libc::setrlimit(libc::RLIMIT_AS, &lim);
+    // an absurd allocation must fail fast instead of being lazily granted (not under
+    // AddressSanitizer: its shadow memory needs terabytes of address space, and its allocator
+    // refuses absurd sizes by itself)
+    if std::env::var("ASAN_OPTIONS").is_err() {
+        unsafe {
+            let lim = libc::rlimit { rlim_cur: 8 << 30, rlim_max: 8 << 30 };
+            libc::setrlimit(libc::RLIMIT_AS, &lim);
+        }
     }
     let side_path = std::env::var("VH_SIDE_FILE").ok();
     let mut side = side_path.and_then(|p| std::fs::OpenOptions::new().create(true).append(true).open(p).ok());
